@@ -130,7 +130,9 @@ fn gen_elem(r: &mut Rng, o: &GenOpts, depth: usize, budget: &mut usize, scope: &
         }
         let value = if ap == "xml" && al == "id" {
             // an already normalised, document-unique id
-            let v = format!("i{}{}", ids.len(), if r.chance(1, 3) { " w" } else { "" });
+            // (sometimes with white space other than #x20 inside, which only a character reference can put there and which
+            // the normalisation of an ID value leaves alone)
+            let v = format!("i{}{}", ids.len(), match r.below(9) { 0 | 1 | 2 => " w", 3 => "\tw", 4 => "\nw", 5 => "\u{a0}w", _ => "" });
             ids.push(v.clone());
             v
         } else if ap == "xml" && al == "space" {
@@ -589,6 +591,12 @@ pub fn damage(ren: &Rendering, fragment: bool) -> Vec<(String, usize, String)> {
     for e in &ren.elems {
         if let (Some((a, b)), Some((na, nb))) = (e.end_tag, e.end_name) {
             out.push(("mismatched-end-tag".into(), a, rep(na, nb, "zz9")));
+            // the end tag must repeat the start tag's name as it is written: a dropped or an added prefix is a mismatch even
+            // where the default namespace makes the expanded names meet
+            match t[na..nb].find(':') {
+                Some(c) => out.push(("end-tag-prefix-dropped".into(), a, rep(na, na + c + 1, ""))),
+                None => out.push(("end-tag-prefix-added".into(), a, rep(na, na, "xml:"))),
+            }
             out.push(("missing-end-tag".into(), a, rep(a, b, "")));
             out.push(("undeclared-prefix-element".into(), e.name_start, format!("{}und:{}{}und:{}{}", &t[..e.name_start], &t[e.name_start..e.name_end], &t[e.name_end..na], &t[na..nb], &t[nb..])));
         } else {
@@ -672,6 +680,11 @@ pub fn damage(ren: &Rendering, fragment: bool) -> Vec<(String, usize, String)> {
         out.push(("stray-end-tag-top".into(), t.len(), format!("{}</zz9>", t)));
         out.push(("stray-end-tag-only".into(), 0, "</a>".to_string()));
         out.push(("unclosed-element-top".into(), t.len(), format!("{}<open>", t)));
+    }
+    // end tags that name the same expanded name in other words
+    for fixed in ["<p:a xmlns:p=\"urn:u\" xmlns:q=\"urn:u\"></q:a>", "<p:a xmlns:p=\"urn:u\" xmlns=\"urn:u\"></a>",
+                  "<a xmlns:p=\"urn:u\" xmlns=\"urn:u\"></p:a>", "<d xmlns:p=\"urn:u\" xmlns=\"urn:d\"><p:a>t</a></d>"] {
+        out.push(("end-tag-same-expanded-name-other-spelling".into(), 0, fixed.to_string()));
     }
     out.retain(|(_, _, s)| !s.is_empty());
     out
